@@ -55,14 +55,18 @@ func c10Committed(target string) []c10Doc {
 	return docs
 }
 
-func c10Rep(s string, n int) string { return strings.Repeat(s, n) }
+// c10ScalePct scales the repetition counts of the hostile constants: 100 for the corpus replay, 8 for the documents
+// the mutation tests start from (same shapes, a few KiB instead of 60-400 KiB: amplification is the mutator's job).
+var c10ScalePct = 100
+
+func c10Rep(s string, n int) string { return strings.Repeat(s, max(2, n*c10ScalePct/100)) }
 
 // c10JSONInString nests a JSON document inside a JSON string n times.
 func c10JSONInString(n int) string {
 	s := `["https://deep.example.org/leaf.png"]`
 	for i := 0; i < n; i++ {
 		s = `{"k":` + strconv.Quote(s) + `}`
-		if len(s) > 200<<10 {
+		if len(s) > 200<<10*c10ScalePct/100 {
 			break
 		}
 	}
@@ -230,10 +234,31 @@ func c10Hostile(target string) []c10Doc {
 	return nil
 }
 
-// c10Corpus = committed documents + hostile constants.
-func c10Corpus(target string) []c10Doc {
-	return append(append([]c10Doc{}, c10Committed(target)...), c10Hostile(target)...)
+var c10CorpusCache = map[string][]c10Doc{}
+
+func c10CorpusScaled(target string, pct int) []c10Doc {
+	key := target + "@" + strconv.Itoa(pct)
+	c10CorpusMu.Lock()
+	d, ok := c10CorpusCache[key]
+	c10CorpusMu.Unlock()
+	if ok {
+		return d
+	}
+	committed := c10Committed(target)
+	c10CorpusMu.Lock()
+	defer c10CorpusMu.Unlock()
+	c10ScalePct = pct
+	d = append(append([]c10Doc{}, committed...), c10Hostile(target)...)
+	c10ScalePct = 100
+	c10CorpusCache[key] = d
+	return d
 }
+
+// c10Corpus = committed documents + full-size hostile constants (corpus replay, fuzz seeds).
+func c10Corpus(target string) []c10Doc { return c10CorpusScaled(target, 100) }
+
+// c10Bases = committed documents + small hostile constants (starting points of the mutation tests).
+func c10Bases(target string) []c10Doc { return c10CorpusScaled(target, 8) }
 
 // ---- byte codec of the chain target --------------------------------------------------------------------------
 //
